@@ -155,6 +155,24 @@ pub fn parse_exact(input: &[u8], strict: bool) -> R<Tlv<'_>> {
 	Ok(t)
 }
 
+/// Is `content` a well-formed DER OBJECT IDENTIFIER value (arcs of any size)?
+pub fn oid_wellformed(content: &[u8]) -> R<()> {
+	if content.is_empty() {
+		return Err("empty OID".into());
+	}
+	let mut start = true;
+	for &b in content {
+		if start && b == 0x80 {
+			return Err("non-minimal OID subidentifier (leading 0x80)".into());
+		}
+		start = b & 0x80 == 0;
+	}
+	if !start {
+		return Err("OID ends inside a subidentifier".into());
+	}
+	Ok(())
+}
+
 pub fn decode_oid(content: &[u8]) -> R<Vec<u64>> {
 	if content.is_empty() {
 		return Err("empty OID".into());
@@ -324,7 +342,7 @@ pub fn check_value(t: &Tlv<'_>) -> R<()> {
 		},
 		OID => {
 			prim("OID")?;
-			decode_oid(c)?;
+			oid_wellformed(c)?;
 		},
 		UTF8 => {
 			prim("UTF8String")?;
